@@ -860,14 +860,30 @@ impl PeerHandler {
             .ok_or(Error::PieceBuffMissing)
             .expect("Saving to file: piece data not exist after validation");
         let name = utils::hash_to_string(&piece_rx.hash) + ".piece";
+        // In end game other connection can complete the same piece. Its file may already be in use
+        // (extractor, upload), so never truncate it: write aside and replace it atomically.
+        let part = format!(
+            "{}.{}.part",
+            name,
+            self.connection
+                .addr
+                .replace(|c: char| !c.is_ascii_alphanumeric(), "_")
+        );
         // File-system seam: the same write, spelled as its two steps (truncate, write).
         #[cfg(feature = "verif")]
-        let res = crate::verif::write_file_in_two_steps(&name, &piece_rx.buff).await;
+        let res = crate::verif::write_file_in_two_steps(&part, &piece_rx.buff).await;
         #[cfg(not(feature = "verif"))]
-        let res = fs::write(name, &piece_rx.buff).await;
+        let res = fs::write(&part, &piece_rx.buff).await;
+        let res = match res {
+            Ok(()) => fs::rename(&part, &name).await,
+            Err(e) => Err(e),
+        };
         match res {
             Ok(()) => Ok(()),
-            Err(_) => Err(Error::FileCannotWrite),
+            Err(_) => {
+                let _ = fs::remove_file(&part).await;
+                Err(Error::FileCannotWrite)
+            }
         }
     }
 }
